@@ -225,7 +225,10 @@ func (t *tr) tupleAssign(s *ast.AssignStmt, r callRes, define bool) {
 	for i, l := range s.Lhs {
 		id, ok := l.(*ast.Ident)
 		if !ok {
-			t.fail("multi-value assignment to a non-variable")
+			if _, sel := l.(*ast.SelectorExpr); !sel || define {
+				t.fail("multi-value assignment to %s", exprText(l))
+			}
+			id = &ast.Ident{Name: sanitize(exprText(l))} // x.f: a temporary named x_f
 		}
 		n := "_"
 		if id.Name != "_" {
@@ -264,6 +267,8 @@ func (t *tr) declStmt(s *ast.DeclStmt) {
 		ty := t.p.resolveType(vs.Type)
 		for _, n := range vs.Names {
 			switch ty.k {
+			case kBool:
+				t.storeVar(n.Name, &val{t: tBool, e: "false"}, true)
 			case kErr:
 				t.storeVar(n.Name, &val{t: tErr, isNil: true, errK: 1}, true)
 			case kArr:
